@@ -269,6 +269,41 @@ theorem close_exact_once {s s' : State} {chain : Nat} {id : Bytes} (hi : SInv s)
     obtain ⟨o', _, _, hg', _⟩ := editOrder_ok he
     rw [hm1, hm2, e5] at hg'; cases hg'
 
+/-- **the close guard compares the CREDITED amount.** `CloseOrder` runs inside `HandleCommitteeSwaps`, which swallows
+errors without rolling back, so the check made before anything moves is what keeps a close atomic. The quantity it
+compares with the buyer's balance is the order's `AmountForSale` (the escrowed amount that is credited), not its
+`RequestedAmount` (the counter-asset price): if `balance + AmountForSale` would exceed `MaxUint64` the close is refused
+with `InvalidAmount` and — as an instruction of a certificate — changes nothing; and a close that succeeds had
+`balance + AmountForSale ≤ MaxUint64`. -/
+theorem close_guard_is_on_credited_amount {s : State} {chain : Nat} {id : Bytes} {o : SellOrder}
+    (hg : AM.get? s.orders (chain, id) = some o) (hl : o.buyerRecv ≠ []) :
+    (balance s o.buyerRecv > maxU64 - o.amount →
+        closeOrder s chain id = .error .InvalidAmount ∧ orSkip s (closeOrder s chain id) = s) ∧
+    (∀ s', closeOrder s chain id = .ok s' → o.amount ≤ maxU64 → balance s o.buyerRecv + o.amount ≤ maxU64) := by
+  have hgo : getOrder s chain id = .ok o := by simp [getOrder, hg]
+  constructor
+  · intro hov
+    have : closeOrder s chain id = .error .InvalidAmount := by
+      simp [closeOrder, hgo, bind, Except.bind, hl, hov, throw, throwThe, MonadExceptOf.throw]
+    exact ⟨this, by simp [orSkip, this]⟩
+  · intro s' h ha
+    by_cases hov : balance s o.buyerRecv > maxU64 - o.amount
+    · have : closeOrder s chain id = .error .InvalidAmount := by
+        simp [closeOrder, hgo, bind, Except.bind, hl, hov, throw, throwThe, MonadExceptOf.throw]
+      rw [this] at h; cases h
+    · omega
+
+/-- boundary witnesses (the family `closeovf-*` runs them on the real code): an order selling 1000 for 10, buyer
+balance `MaxUint64 − 1000` → paid; `MaxUint64 − 999` → refused and nothing moves, although `MaxUint64 − 10` would
+still admit it if the price were compared -/
+example :
+    let mk (bal : Nat) : State := run {} [.fund addrA 1000, mkCreate id1 1000,
+      .swaps 2 { locks := [some { id := id1, buyerRecv := addrB, buyerSend := [5], deadline := 9 }] },
+      .fund addrB bal, .swaps 2 { closes := [id1, id1] }]
+    (balance (mk (18446744073709551615 - 1000)) addrB = 18446744073709551615 ∧ escrowSum (mk (18446744073709551615 - 1000)) 2 = 0) ∧
+    (balance (mk (18446744073709551615 - 999)) addrB = 18446744073709551615 - 999 ∧ escrowSum (mk (18446744073709551615 - 999)) 2 = 1000
+      ∧ (getPool (mk (18446744073709551615 - 999)) (escrowId 2)).amount = 1000) := by decide
+
 /-- the same for a seller's `DeleteOrder`: exactly the escrowed amount goes back to the seller, once -/
 theorem delete_exact_once {s s' : State} {chain : Nat} {id : Bytes} (hi : SInv s)
     (h : deleteOrderMsg s chain id = .ok s') :
